@@ -206,6 +206,8 @@ func families(thorough bool) []*family {
 	updItems := cross(get, []string{"/", "/a", "/a/b", "/b", "/a-b", "/a_b/c", "/v1/item", "/order-item", "/a_mwz/q"})
 	if !thorough {
 		upd("pairs", updItems, 2, []int{nDistinct, nSegment}, all8[:4])
+		// an update that adds two methods at once (handler-by-service layout: both go into one existing file)
+		upd("triples, small", cross(get, []string{"/", "/a", "/a/b", "/b"}), 3, []int{nDistinct}, all8)
 	} else {
 		upd("pairs", cross(getPost, []string{"/", "/a", "/a/b", "/b", "/a-b", "/a_b/c", "/v1/item", "/order-item", "/a/:id"}), 2, []int{nDistinct, nSegment, nSame}, all8)
 		upd("triples", updItems, 3, []int{nDistinct, nSegment}, all8)
